@@ -198,6 +198,9 @@ class BlockIntEnumFieldListWrapper(BlockBindEnum[F], BlockWrapper[F]):
 
     @override(BlockWrapper)
     def after(self) -> None:
+        if not self.d.fields():
+            # A class body can't be empty in Python.
+            self.push("    pass")
         self.push_empty_line()
 
     def render_enum_type(self) -> None:
